@@ -4,10 +4,12 @@ package main
 import (
 	"encoding/json"
 	"fmt"
+	"github.com/33cn/chain33/account"
 	"os"
 	"path/filepath"
 	"sort"
 	"strings"
+	"sync"
 	"time"
 
 	"github.com/33cn/chain33/common/crypto"
@@ -317,6 +319,7 @@ type caseRes struct {
 	Problems          []string `json:"problems,omitempty"`
 	NTx               int      `json:"ntx"`
 	Failed            int      `json:"failed_txs"`
+	FeeObs            int      `json:"fee_obs"`
 	ReadsAfterFailure int      `json:"reads_after_failure"` // observations made by successful txs after >=1 failed tx/group wrote the same key
 	Modes             []string `json:"modes"`
 	Block             *gBlock  `json:"block,omitempty"`
@@ -400,6 +403,41 @@ func checkBlock(env *execenv.Env, idx int, b *gBlock) caseRes {
 			}
 		}
 	}
+	// fee conservation: fold the coins-account writes of the receipts in block order (as the store applies them). Every
+	// transaction that is not rejected outright pays exactly its fee, failed ones included, so after receipt i the payer's
+	// last written balance is its balance before the block minus the fees charged so far.
+	acc := account.NewCoinsAccount(env.Cfg)
+	folded := map[string]int64{}
+	expected := map[string]int64{}
+	for i, r := range rs.Receipts {
+		from := txs[i].From()
+		if _, ok := expected[from]; !ok {
+			if b0, ok := initialBalance(env, acc, from); ok {
+				expected[from] = b0
+				folded[from] = b0
+			}
+		}
+		for _, kv := range r.KV {
+			for a := range expected {
+				if string(kv.Key) == string(acc.AccountKey(a)) {
+					var ac types.Account
+					if types.Decode(kv.Value, &ac) == nil {
+						folded[a] = ac.Balance
+					}
+				}
+			}
+		}
+		if _, ok := expected[from]; !ok || r.Ty == types.ExecErr {
+			continue
+		}
+		expected[from] -= txs[i].Fee
+		res.FeeObs++
+		if folded[from] != expected[from] {
+			res.Problems = append(res.Problems, fmt.Sprintf("tx %d (group %d, fail=%q, receipt type %d): after this receipt the payer %s holds %d, expected %d (balance before the block minus every fee charged so far, %d for this transaction)",
+				i, b.Txs[i].Group, b.Txs[i].Fail, r.Ty, from, folded[from], expected[from], txs[i].Fee))
+			folded[from] = expected[from] // report each discrepancy once
+		}
+	}
 	for m := range modes {
 		res.Modes = append(res.Modes, m)
 	}
@@ -408,6 +446,30 @@ func checkBlock(env *execenv.Env, idx int, b *gBlock) caseRes {
 		res.Block = b
 	}
 	return res
+}
+
+var (
+	balMu  sync.Mutex
+	balMem = map[string]int64{}
+)
+
+// initialBalance reads the payer's coins balance in the state the block is executed on (cached per process).
+func initialBalance(env *execenv.Env, acc *account.DB, addr string) (int64, bool) {
+	balMu.Lock()
+	defer balMu.Unlock()
+	if v, ok := balMem[addr]; ok {
+		return v, true
+	}
+	vals, err := env.N.API.StoreGet(&types.StoreGet{StateHash: env.Tip.StateHash, Keys: [][]byte{acc.AccountKey(addr)}})
+	if err != nil || len(vals.Values) != 1 || len(vals.Values[0]) == 0 {
+		return 0, false
+	}
+	var ac types.Account
+	if types.Decode(vals.Values[0], &ac) != nil {
+		return 0, false
+	}
+	balMem[addr] = ac.Balance
+	return ac.Balance, true
 }
 
 type batchReq struct {
@@ -484,6 +546,7 @@ func run(c *lib.Ctx) {
 			c.Count("transactions", int64(r.NTx))
 			c.Count("failed_transactions", int64(r.Failed))
 			c.Count("reads_after_failure", int64(r.ReadsAfterFailure))
+			c.Count("fee_balance_observations", int64(r.FeeObs))
 			for _, m := range r.Modes {
 				c.Seen("failure_modes", m)
 			}
